@@ -45,8 +45,12 @@ class SimplifyContract(Contract):
         for r in rows:
             st, grey = M.reduce_settings(r)
             if grey:
+                # the style a terminal would show is debatable, so it is not compared; what simplify() promises about
+                # its own result (text kept, parsable, no invalid setting left, idempotent, fixed point) still is
                 ctx.grey('illformed-setting:' + grey)
-                return
+                ctx.sig('simplify:illformed-judged-without-style')
+                pre_sty = None
+                break
             pre_sty.append(M.freeze(st))
         post = O.observe(v)
         ctx.ev('simplify')
@@ -63,7 +67,7 @@ class SimplifyContract(Contract):
         if g2:
             ctx.violation('simplify-left-illformed', det, call, mech='simplify-illformed')
             return
-        for i, (a, b) in enumerate(zip(pre_sty, post_sty)):
+        for i, (a, b) in enumerate(zip(pre_sty or [], post_sty)):
             if a != b:
                 d = dict(det)
                 d.update({'index': i, 'expected': dict(a), 'got': dict(b)})
